@@ -37,6 +37,9 @@ pub struct Obs {
     /// run counters after the script [seq, par, dispatch, thread_local, run_now, dispatch on a second world, dispatch on the first again]
     pub runs: Option<Vec<u32>>,
     pub dispatch_panic: Option<String>,
+    /// two dispatches on a world from which abstract resource A (0) / C (2) has been removed, for plans in which only
+    /// `Option<Read>` / `Option<Write>` members name it: (resource, run counters, panic)
+    pub runs_absent: Vec<(u8, Vec<u32>, Option<String>)>,
     /// run counters that differ from `runs` when the default pool has that many threads
     pub runs_by_pool: Vec<(usize, Vec<u32>)>,
     pub setups: Option<Vec<u32>>,
@@ -183,6 +186,44 @@ pub fn observe(ops: &[Op], resmap: &[u8], need: Need) -> Obs {
         }
         o.runs = Some(ctx.runs.lock().unwrap().clone());
         ctx.take_log();
+        // a resource that only optional members name is absent at dispatch time: every system runs all the same
+        fn tolerates(ops: &[Op], missing: u8, opt_seen: &mut bool) -> bool {
+            ops.iter().all(|op| match op {
+                Op::Barrier => true,
+                Op::Sys(x) | Op::Tl(x) => !x.reads.contains(&missing) && !x.writes.contains(&missing),
+                Op::Static(st) => match (st.data, missing) {
+                    (StaticData::OptReadA, 0) | (StaticData::OptWriteC, 2) => {
+                        *opt_seen = true;
+                        true
+                    }
+                    (d, m) => !d.reads().contains(&m) && !d.writes().contains(&m),
+                },
+                Op::Batch(b) => !b.ctrl.reads().contains(&missing) && !b.ctrl.writes().contains(&missing) && tolerates(&b.inner, missing, opt_seen),
+            })
+        }
+        if resmap == Ctx::identity_map().as_slice() {
+            for missing in [0u8, 2] {
+                let mut opt_seen = false;
+                if !(tolerates(ops, missing, &mut opt_seen) && opt_seen) {
+                    continue;
+                }
+                let ctx5 = Ctx::new(info_n, resmap.to_vec());
+                let reg5 = register(ops, &ctx5, None, false);
+                if let Ok(mut d5) = build(reg5.builder) {
+                    let mut w5 = new_world();
+                    if missing == 0 {
+                        drop(w5.remove::<Cell0>());
+                    } else {
+                        drop(w5.remove::<Cell1>());
+                    }
+                    let r = catch_unwind(AssertUnwindSafe(|| {
+                        d5.dispatch(&w5);
+                        d5.dispatch(&w5);
+                    }));
+                    o.runs_absent.push((missing, ctx5.runs.lock().unwrap().clone(), r.err().map(|p| payload_str(&*p))));
+                }
+            }
+        }
         // the same script with default pools of 1, 2 and 3 threads (code that looks at the pool size)
         if o.dispatch_panic.is_none() {
             for n in [1usize, 2, 3] {
